@@ -441,6 +441,7 @@ def run():
     guarded("diagnostics of a failing transform", lambda: rep.add(diagnostics_obligation(prog, engs, fn)))
     guarded("ignore files", lambda: ignore_stack_obligation(rep, ctx))
     guarded("directory reads", lambda: readdir_errors_obligation(rep, ctx))
+    guarded("one file system", lambda: one_fs_obligation(rep, ctx))
     return rep
 
 
@@ -636,4 +637,32 @@ def readdir_errors_obligation(rep, ctx):
     else:
         o.verdict = "holds"
         o.witness = "%d closure paths" % npaths
+    rep.add(o)
+
+
+def one_fs_obligation(rep, ctx):
+    """--one-fs: a directory whose device cannot be determined (the stat issued for the comparison fails) is skipped with a warning,
+    not entered.  E2 over Walk::visit_dir with the device helpers of walk.rs inlined: on every path with one_fs set on which
+    FileId::new failed, read_dir is not reached and a warning was logged."""
+    prog = ctx.lib
+    f = prog.method("Walk", "visit_dir")
+    inl = lambda c, t: oblig.defined_in(prog, t, "walk.rs") and re.search(r"_fs$", t.name) is not None
+    eng = oblig.engine(prog, unroll=0, inline=inl, extra=dict(optsum.SUMMARIES))
+    ps = eng.run(f)
+
+    def prop(p):
+        fid = called(p, r"FileId::new$")
+        if not fid or not isinstance(fid[0].ret, Lazy):
+            return None
+        failed = z3.BitVec(mirsym.sanitize(fid[0].ret.name + "#d"), 64) == 1
+        if eng.check(*(list(p.pc) + [failed])) != z3.sat:
+            return None
+        entered = bool(called(p, r"(^|::)read_dir$"))
+        warned = bool(called(p, r"log_warn$|::warn$"))
+        # under pc /\ failed: not entered, warned
+        return z3.Implies(failed, z3.BoolVal(not entered and warned))
+    o = oblig.check_paths(eng, ps, "visit_dir with --one-fs: a directory whose device cannot be determined is skipped with a warning, never entered",
+                          prop, oblig.fnames(eng), key="walk:one-fs-stat-failure", allow=("return", "panic", "diverge", "bound"))
+    if o.verdict == "violated":
+        replay(o, ctx)
     rep.add(o)
